@@ -482,7 +482,8 @@ pub fn scenario(id: &str) -> Option<Box<dyn Scenario>> {
             relabel: None,
             twin_without_nonconsuming: false,
         }),
-        "C15" => Box::new(SeqScenario {
+        "C15" => Box::new(C15Scenario),
+        "C15seq" => Box::new(SeqScenario {
             id: "C15",
             opts: |s| {
                 let mut o = SeqOpts::base("C15", "counts");
@@ -1509,6 +1510,49 @@ impl Scenario for C04Scenario {
                     history_hash(&rr),
                 )
             }
+        }
+    }
+}
+
+// ---------------------------------------------------------------------------
+// C15 (composite): sequential histories with a count after every operation | quiescent points of concurrent histories
+// ---------------------------------------------------------------------------
+pub struct C15Scenario;
+
+fn c15_seq() -> Box<dyn Scenario> {
+    scenario("C15seq").unwrap()
+}
+
+impl Scenario for C15Scenario {
+    fn id(&self) -> &'static str {
+        "C15"
+    }
+    fn rule_text(&self) -> String {
+        format!("two profiles chosen by seed (4 of 5 runs sequential, 1 of 5 concurrent). sequential: {} concurrent: C05's workload (2-4 client threads of appends, batches - concurrent batches on one topic are refused with WouldBlock - and consuming reads under the seeded scheduler) with get_topic_entry_count asked for every topic at each quiescent point: after the single-threaded prologue, after all client threads were joined and before anything is drained, and after each final drain; expected = entries of appends that returned success - entries returned by consuming reads (same process lifetime, StrictlyAtOnce and AtLeastOnce)", c15_seq().rule_text())
+    }
+    fn plan_for(&self, seed_r: u64) -> Option<Plan> {
+        if seed_r % 5 == 4 {
+            crate::conc::ConcCountsScenario.plan_for(seed_r)
+        } else {
+            c15_seq().plan_for(seed_r)
+        }
+    }
+    fn run_one(&self, seed_r: u64, env: &Env) -> Outcome {
+        if seed_r % 5 == 4 {
+            let mut o = crate::conc::ConcCountsScenario.run_one(seed_r, env);
+            o.stat("profile.conc-counts", 1);
+            o
+        } else {
+            let mut o = c15_seq().run_one(seed_r, env);
+            o.stat("profile.counts", 1);
+            o
+        }
+    }
+    fn judge_plan(&self, plan: &Plan, env: &Env) -> (Vec<Finding>, u64) {
+        if plan.profile == "conc-counts" {
+            crate::conc::ConcCountsScenario.judge_plan(plan, env)
+        } else {
+            c15_seq().judge_plan(plan, env)
         }
     }
 }
